@@ -43,16 +43,17 @@ type vBrowser struct {
 
 type vAvahi struct {
 	avahi.ServerInterface
-	up            bool
-	cb            avahi.EventCB
-	setups        int
-	shutdowns     int
-	browsers      []*vBrowser
-	groups        []*vGroup
-	addCh, remCh  chan avahi.Service
-	mu            sync.Mutex // go-avahi's server mutex: held while a signal is dispatched and while a browser is freed
-	callsAfterEnd int        // Setup / ServiceBrowserNew / EntryGroupNew after the application's Shutdown returned
-	ended         bool       // application's Shutdown returned
+	up             bool
+	cb             avahi.EventCB
+	setups         int
+	shutdowns      int
+	browsers       []*vBrowser
+	groups         []*vGroup
+	addCh, remCh   chan avahi.Service
+	mu             sync.Mutex // go-avahi's server mutex: held while a signal is dispatched and while a browser is freed
+	failBrowserNew int        // the next n ServiceBrowserNew calls fail although the daemon is reachable
+	callsAfterEnd  int        // Setup / ServiceBrowserNew / EntryGroupNew after the application's Shutdown returned
+	ended          bool       // application's Shutdown returned
 }
 
 func (s *vAvahi) Setup(cb avahi.EventCB) error {
@@ -80,6 +81,10 @@ func (s *vAvahi) ServiceBrowserNew(addChan, removeChan chan avahi.Service, iface
 	}
 	if !s.up {
 		return nil, errors.New("daemon not reachable")
+	}
+	if s.failBrowserNew > 0 {
+		s.failBrowserNew--
+		return nil, errors.New("service browser could not be created")
 	}
 	s.addCh, s.remCh = addChan, removeChan
 	b := &vBrowser{}
@@ -224,6 +229,12 @@ func H_C19_Restart() {
 		zzvrt.WaitQuiescent()
 	}
 	srv.up = true
+	// the daemon is back, but a reconnect attempt may still fail half way: Setup succeeds, creating the browser does not
+	if zzvrt.Bool("browser.fails.once") {
+		srv.failBrowserNew = 1
+	}
+	zzvrt.FireTimers()
+	zzvrt.WaitQuiescent()
 	zzvrt.FireTimers()
 	zzvrt.WaitQuiescent()
 	zzvrt.FireTimers()
@@ -250,7 +261,7 @@ func H_C19_Restart() {
 	// services resolved afterwards are reported again
 	if op != c19Shutdown && srv.addCh != nil {
 		before := e.resolved
-		go func() { srv.addCh <- avahi.Service{Name: "peer", Interface: 1} }()
+		go srv.dispatch(true, avahi.Service{Name: "peer", Interface: 1})
 		zzvrt.WaitQuiescent()
 		zzvrt.Assert(e.resolved == before+1, "C19.resolved-service-not-reported")
 	}
